@@ -24,6 +24,9 @@ func rulesC12(c *Ctx) {
 	c.Rule("retry-decision")
 	retryDecision(c, map[string]bool{"decision": true})
 	c10Apply(c)
+	// "no conditions are configured" is a statement about what the user configured: Build installs no default on the
+	// builder's shared condition sets
+	buildCopiesConfig(c)
 }
 
 // ---- C12.isfailure -------------------------------------------------------------------------------------
@@ -576,6 +579,22 @@ func c12Unwrap(c *Ctx) {
 			}
 			// continues with the cause: next assignability test is on the unwrapped error
 			if len(assign) < 2 {
+				// … or the search recurses on the cause with the same target, and its verdict is the result
+				if rec := eventsWhere(p, func(e *Event) bool { return isCall(e, "errorAs") }); len(rec) == 1 && p.Exit == ExitReturn {
+					fa := fullArgs(rec[0])
+					onCause, sameTarget := false, false
+					for _, a := range fa {
+						if a == inner {
+							onCause = true
+						}
+						if a == target {
+							sameTarget = true
+						}
+					}
+					if onCause && sameTarget && p.State.Facts.Truth(ts, p.Rets[0]) == p.State.Facts.Truth(ts, rec[0].Res[0]) && p.State.Facts.Truth(ts, p.Rets[0]) != triU {
+						continue
+					}
+				}
 				if p.Exit != ExitCut {
 					bad("the unwrapped cause is not examined")
 				}
